@@ -30,14 +30,17 @@ Theorem generated_decisions :
    (forall k, tree_resets k = true) /\ kr_resets = true /\ (forall k, forest_resets k = true)) /\
   (* omitted optional arguments: defaults are None / False, none is a mutable object shared between calls *)
   (ctor_defaults_immutable = true /\ exclusion_defaults_are_none = true /\
-   forall k p, default_cfg k p = Some (mkCfg k false false p)).
+   forall k p, default_cfg k p = Some (mkCfg k false false p)) /\
+  (* obj() always runs compute() (no memoisation): after a reconfiguration the tables are the new ones *)
+  (call_runs_compute = true /\ forall (old new : option tree), call_again old new = new).
 Proof.
-  split; [exact ops_spec|]. split; [split; reflexivity|]. split; [|split; [|split]].
+  split; [exact ops_spec|]. split; [split; reflexivity|]. split; [|split; [|split; [|split]]].
   - split; [reflexivity|]. split; [exact kr_take_spec|]. split; [exact kr_weight_spec|].
     split; [exact kr_all_edges_spec|]. split; [exact kr_keep_spec|exact kr_child_keep_spec].
   - split; [intros []; reflexivity|]. split; [reflexivity|]. intros [] p; reflexivity.
   - split; [intros [] r n; reflexivity|]. split; [intros []; reflexivity|]. split; [reflexivity|intros []; reflexivity].
   - split; [reflexivity|]. split; [reflexivity|]. intros k p; reflexivity.
+  - split; [reflexivity|]. intros old new; reflexivity.
 Qed.
 
 (* ------------------------------------------------------------ acyclicity of the parent table, explicitly *)
@@ -238,24 +241,35 @@ Qed.
 Lemma again_const {A} k (t x : A) : again k (fun _ => t) x = match k with 0 => x | S _ => t end.
 Proof. revert x. induction k as [|k IH]; intros x; simpl; auto. rewrite IH. destruct k; reflexivity. Qed.
 
-(* calling compute() again leaves the tables of one computation *)
+Lemma again_ext {A} k (f h : A -> A) x : (forall y, f y = h y) -> again k f x = again k h x.
+Proof. intros E. revert x. induction k as [|k IH]; intros x; simpl; auto. rewrite E. apply IH. Qed.
+
+(* obj() runs compute() again: after a reconfiguration the tables are those of the new configuration *)
+Lemma call_again_spec {A} (old new : A) : call_again old new = new.
+Proof. reflexivity. Qed.
+
+(* calling compute() / obj() again leaves the tables of one computation *)
 Lemma bfs_calls_idem c g r calls : bfs_calls c g r calls = bfs_z c g r.
 Proof.
   unfold bfs_calls. destruct (bfs_z c g r) as [t|]; auto.
-  replace (tree_resets (c_kind c)) with true by (destruct (c_kind c); reflexivity).
-  simpl. rewrite again_const. now destruct (calls - 1).
+  rewrite (again_ext _ _ (fun _ => t)).
+  - rewrite again_const. now destruct (calls - 1).
+  - intros y. rewrite call_again_spec. destruct (c_kind c); reflexivity.
 Qed.
 
 Lemma forest_calls_idem k p g calls : forest_calls k p g calls = forest k p g.
 Proof.
-  unfold forest_calls. replace (forest_resets k) with true by (destruct k; reflexivity).
-  rewrite again_const. now destruct (calls - 1).
+  unfold forest_calls. rewrite (again_ext _ _ (fun _ => forest k p g)).
+  - rewrite again_const. now destruct (calls - 1).
+  - intros y. rewrite call_again_spec. destruct k; reflexivity.
 Qed.
 
 Lemma kruskal_calls_idem i r calls : kruskal_calls i r calls = kruskal_z i r.
 Proof.
   unfold kruskal_calls. destruct (kruskal_z i r) as [t|]; auto.
-  change kr_resets with true. simpl. rewrite again_const. now destruct (calls - 1).
+  rewrite (again_ext _ _ (fun _ => t)).
+  - rewrite again_const. now destruct (calls - 1).
+  - intros y. rewrite call_again_spec. reflexivity.
 Qed.
 
 Lemma recompute_idem :
